@@ -133,6 +133,19 @@ def message(draw, allow_update=True, big_ok=True, sections_max=3):
     kind = draw(st.sampled_from(["query", "response", "response", "response", "notify", "update", "other"]))
     if kind == "update" and not allow_update:
         kind = "response"
+    stair = None
+    if kind in ("response", "notify", "other") and draw(st.integers(0, 9)) == 0:
+        # a staircase: every name is the previous one with one more label in front, used as owners
+        # shortest first, so that the k-th is rendered as "label + pointer to the (k-1)-th" and a
+        # decoder follows k pointers to read it (RFC 1035 4.1.4 sets no limit on the chain)
+        base = list(origin) if origin is not None else list(pool[0])[-2:]
+        if G.wire_len(base) > 100:
+            base = [b"x", b""]
+        stair = [base]
+        for i in range(draw(st.integers(11, 24))):
+            lab = draw(st.sampled_from([b"a", b"B", b"0", b"zz", b"\x00", b"_"]))
+            stair.append([lab] + stair[-1])
+        pool = stair + pool[:2]
     opcode = {"query": 0, "response": 0, "notify": 4, "update": 5}.get(kind)
     if opcode is None:
         opcode = draw(st.sampled_from([1, 2, 3, 6, 7, 15]))
@@ -161,6 +174,13 @@ def message(draw, allow_update=True, big_ok=True, sections_max=3):
             k = draw(st.integers(0, sections_max)) if kind != "query" else draw(st.sampled_from([0, 0, 1]))
             sec = []
             keys = set()
+            if stair is not None and si == 0:
+                for nm in stair:
+                    t = draw(st.sampled_from(["A", "A", "TXT"]))
+                    rs = {"name": G.hexl(nm), "rdclass": 1, "type": t, "rdtype": R.TYPECODES[t], "ttl": 300,
+                          "rdatas": ["0a000001"] if t == "A" else ["0161"]}
+                    keys.add((tuple(l.lower() for l in rs["name"]), rs["rdtype"], ""))
+                    sec.append(rs)
             for j in range(k):
                 rs = draw(rrset(pool, origin, big=(big and si == 0 and j == 0)))
                 key = (tuple(l.lower() for l in rs["name"]), rs["rdtype"], rs["rdatas"][0][:4] if rs["type"] in ("RRSIG", "SIG") and rs["rdatas"] else "")
